@@ -59,23 +59,27 @@ end
 /-- `'0'..'9'` -/
 def isDigitCh (c : Char) : Bool := '0' ≤ c && c ≤ '9'
 
-/-- a real's text ends with a digit, or is/ends with `inf` or `NaN` (Rust `Display for f64`) -/
-def realTextEnd (s : Str) : Bool :=
-  match s.reverse with
+/-- `realTextEnd` on the reversed text (last character first) -/
+def realEndRev : Str → Bool
   | 'f' :: 'n' :: 'i' :: _ => true
   | 'N' :: 'a' :: 'N' :: _ => true
   | c :: _ => isDigitCh c
   | [] => false
 
+/-- a real's text ends with a digit, or is/ends with `inf` or `NaN` (Rust `Display for f64`) -/
+def realTextEnd (s : Str) : Bool := realEndRev s.reverse
+
+/-- `numTextEnd` on the reversed text (last character first) -/
+def numEndRev : Str → Bool
+  | ')' :: _ => true
+  | ['i'] => true
+  | 'i' :: c :: r => c = ' ' || c = '-' || realEndRev (c :: r)
+  | l => realEndRev l
+
 /-- a printed number (as it stands in front of a unit symbol) ends with a digit, `inf`, `NaN`,
     a closing parenthesis, or with an `i` that is the whole text or follows a digit, `inf`, `NaN`,
     a blank or a minus sign -/
-def numTextEnd (s : Str) : Bool :=
-  match s.reverse with
-  | ')' :: _ => true
-  | ['i'] => true
-  | 'i' :: c :: r => c = ' ' || c = '-' || realTextEnd (c :: r).reverse
-  | _ => realTextEnd s
+def numTextEnd (s : Str) : Bool := numEndRev s.reverse
 
 /-! ## the hypothesis on the formatter of reals -/
 
